@@ -187,25 +187,26 @@ class Block:
             H_U = self.jacobian(ss, unknowns, targets, T, Js, options, **kwargs)
             H_U_factored = FactoredJacobianDict(H_U, T)
 
-        options = self.get_options(options, kwargs, 'solve_impulse_nonlinear')
+        # keep `options` (the per-block options passed down to every impulse_nonlinear call of the loop) apart from this block's own solver options
+        own_options = self.get_options(options, kwargs, 'solve_impulse_nonlinear')
 
         # Newton's method
         U = ImpulseDict({k: np.zeros(T) for k in unknowns})
-        if options['verbose']:
+        if own_options['verbose']:
             print(f'Solving {self.name} for {unknowns} to hit {targets}')
-        for it in range(options['maxit']):
+        for it in range(own_options['maxit']):
             results = self.impulse_nonlinear(ss, inputs | U, actual_outputs | targets, internals, Js, options, ss_initial, **kwargs)
             errors = {k: np.max(np.abs(results[k])) for k in targets}
-            if options['verbose']:
+            if own_options['verbose']:
                 print(f'On iteration {it}')
                 for k in errors:
                     print(f'   max error for {k} is {errors[k]:.2E}')
-            if all(v < options['tol'] for v in errors.values()):
+            if all(v < own_options['tol'] for v in errors.values()):
                 break
             else:
                 U += H_U_factored.apply(results)
         else:
-            raise ValueError(f'No convergence after {options["maxit"]} backward iterations!')
+            raise ValueError(f'No convergence after {own_options["maxit"]} backward iterations!')
 
         return (inputs | U)[inputs_as_outputs] | results
 
